@@ -13,7 +13,7 @@ job = json.load(sys.stdin)
 rng = random.Random(job.get('seed', 1))
 
 
-def scenario(cls, kw):
+def scenario(cls, kw, other=None):
     out = []
     c = getattr(XE, cls)
     for attempt in (dict(kw), {}, {'no_such_attribute_': 1}):
@@ -39,6 +39,22 @@ def scenario(cls, kw):
             out.append('EXC:' + type(ex).__name__ + ':' + str(ex)[:160])
     except Exception as ex:
         out.append('CTOR:' + type(ex).__name__ + ':' + str(ex)[:160])
+    # what the OTHER thread's scenario supplies, offered to this thread's class: the other thread's text value and the other thread's attribute
+    # values are valid for ITS types and mostly invalid here - whether they are refused must not depend on which thread filled which table first
+    if other:
+        ocls, okw = other
+        oval = job.get('values', {}).get(ocls)
+        for args, kws in (([oval] if oval is not None else None, {}), ([job['values'][cls]] if job.get('values', {}).get(cls) else [], dict(okw))):
+            if args is None:
+                continue
+            try:
+                e = c(*args, **kws)
+                try:
+                    out.append('X:' + e.to_string())
+                except Exception as ex:
+                    out.append('X:EXC:' + type(ex).__name__ + ':' + str(ex)[:160])
+            except Exception as ex:
+                out.append('X:CTOR:' + type(ex).__name__ + ':' + str(ex)[:160])
     return out
 
 
@@ -61,7 +77,7 @@ def in_child(f):
     return pickle.loads(data) if data else {'child_error': 'no data'}
 
 
-def solo(cls, kw, trace=False):
+def solo(cls, kw, trace=False, other=None):
     lines = []
     def tracer(frame, event, arg):
         if not frame.f_code.co_filename.startswith(ROOT):
@@ -74,7 +90,7 @@ def solo(cls, kw, trace=False):
     if trace:
         sys.settrace(tracer)
     try:
-        res = scenario(cls, kw)
+        res = scenario(cls, kw, other)
     finally:
         sys.settrace(None)
     return {'res': res, 'lines': lines}
@@ -98,14 +114,14 @@ def schedule(clsA, kwA, clsB, kwB, k):
     def ta():
         sys.settrace(tracer)
         try:
-            out['A'] = scenario(clsA, kwA)
+            out['A'] = scenario(clsA, kwA, (clsB, kwB))
         finally:
             sys.settrace(None)
             gate.set()
     def tb():
         gate.wait(20)
         try:
-            out['B'] = scenario(clsB, kwB)
+            out['B'] = scenario(clsB, kwB, (clsA, kwA))
         finally:
             resume.set()
     a, b = threading.Thread(target=ta), threading.Thread(target=tb)
@@ -115,8 +131,8 @@ def schedule(clsA, kwA, clsB, kwB, k):
 
 report = {'scenarios': [], 'schedules': 0, 'mismatches': []}
 for clsA, kwA, clsB, kwB in job['scenarios']:
-    sa = in_child(lambda: solo(clsA, kwA, trace=True))
-    sb = in_child(lambda: solo(clsB, kwB))
+    sa = in_child(lambda: solo(clsA, kwA, trace=True, other=(clsB, kwB)))
+    sb = in_child(lambda: solo(clsB, kwB, other=(clsA, kwA)))
     if 'child_error' in sa or 'child_error' in sb:
         report['mismatches'].append({'A': clsA, 'B': clsB, 'error': str(sa.get('child_error') or sb.get('child_error'))})
         continue
